@@ -1084,6 +1084,9 @@ func vfGrpcPick(scriptID, step int) bool {
 	if mode == "all" {
 		return true
 	}
+	if strings.HasPrefix(mode, "only:") {
+		return mode == fmt.Sprintf("only:%d:%d", scriptID, step)
+	}
 	h := uint64(vfSeed())*0x9e3779b97f4a7c15 + uint64(scriptID)*0xbf58476d1ce4e5b9 + uint64(step)*0x94d049bb133111eb
 	h ^= h >> 31
 	h *= 0xd6e8feb86659fd93
